@@ -85,12 +85,12 @@ async fn main() {
     let net = Net::start(4, MODEL, work_root("C11")).await;
     out.push(witness(&net).await);
     out.push(double_delete(&net).await);
-    for i in 0..scale(24, 400) {
+    for i in 0..scale(18, 400) {
         let mut r = rng.fork();
         let len = 1 + (i % 6);
         out.push(order_case(&net, &mut r, len, i % 3 == 0).await);
     }
-    for _ in 0..scale(30, 600) {
+    for _ in 0..scale(24, 600) {
         let mut r = rng.fork();
         out.push(random_case(&net, &mut r).await);
     }
